@@ -407,3 +407,27 @@ Proof.
   split; [symmetry; apply uniq_search_ext; assumption|].
   fold a s in Sss. fold a' s' in Sss. rewrite <- Sss. exact S1.
 Qed.
+
+(* thm:C17_idempotent_all_forms (full) *)
+Lemma all_forms_full cfg h : Forall bulk_wf h -> has_all h ->
+  let a := run_active h in let a' := run_active (dedupb h) in
+  let s := seal cfg a in let s' := seal cfg a' in
+  replay h = a /\
+  (a_total a = a_total a' /\ s_total s = a_total a /\ s_total (reload s) = a_total a /\ s_total s' = a_total a) /\
+  (a_from a = a_from a' /\ s_from s = a_from a /\ s_from (reload s) = a_from a /\ s_from s' = a_from a) /\
+  (a_to a = a_to a' /\ s_to s = a_to a /\ s_to (reload s) = a_to a /\ s_to s' = a_to a) /\
+  (forall i, i <> (0, 0)%N ->
+     fetch a i = ref_fetch1 (concat h) i /\ fetch a' i = ref_fetch1 (concat h) i /\
+     sealed_fetch s i = ref_fetch1 (concat h) i /\ sealed_fetch (reload s) i = ref_fetch1 (concat h) i /\
+     sealed_fetch s' i = ref_fetch1 (concat h) i) /\
+  (forall iv gt t,
+     let q := search_frac iv gt (uniq_tok a) t in
+     search_frac iv gt (uniq_tok (replay h)) t = q /\
+     search_frac iv gt (sealed_view s) t = q /\
+     search_frac iv gt (sealed_view (reload s)) t = q /\
+     search_frac iv gt (uniq_tok a') t = q /\
+     search_frac iv gt (sealed_view s') t = q).
+Proof.
+  intros W HA a a' s s'. destruct (all_forms cfg h W HA) as (A & B & C & D & E & _).
+  repeat (split; [assumption|]). apply (search_all_forms cfg h W HA).
+Qed.
